@@ -144,6 +144,11 @@ def cases(tier, seed):
         if j % 2 == 0 or tier == "thorough":
             for store in ("HDD", "RAM"):
                 yield {"cfg": dict(cfg, feat=None), "store": store, "k": None, "id": 100000 + 2 * j + (store == "RAM"), "kind": "wrapped", "dseed": int(rng.integers(0, 2 ** 31))}
+    # pre-split problems on disk: several problem directories that use the same problem name, visited one after the other in one process
+    for j in range(3 if tier == "quick" else 40):
+        for store in ("HDD", "RAM"):
+            yield {"cfg": {"task": "TSC", "cv": ["presplit", "presplit+kfold2"][j % 2], "ns": 1, "nd": 2 + j % 2, "save": False, "pot": bool(j % 2)}, "store": store, "k": None,
+                   "id": 200000 + 2 * j + (store == "RAM"), "kind": "on-disk", "dseed": int(rng.integers(0, 2 ** 31))}
     for cfg in picks:
         K = _total_calls(cfg)
         for store in ("HDD", "RAM"):        # every configuration also runs once against the in-memory store
@@ -429,6 +434,65 @@ def _wrapped(case, ctx, base):
     ctx.nontrivial = differs_from_inner > 0
 
 
+def _on_disk(case, ctx, base):
+    """problem directories with TRAIN / TEST files, read through the on-disk dataset class; several directories use the same problem name and
+    are run one after the other in this process: every run's records are those of ITS directory's files"""
+    from sktime.benchmarking.data import UEADataset
+    from sktime.benchmarking.orchestration import Orchestrator
+    from sktime.benchmarking.results import HDDResults, RAMResults
+    from sktime.benchmarking.strategies import TSCStrategy
+    from sktime.benchmarking.tasks import TSCTask
+    cfg = case["cfg"]
+    rng = np.random.default_rng([case["dseed"], 1919])
+    problems = []
+    for d in range(cfg["nd"]):
+        ntr, nte, nt = int(rng.integers(5, 11)), int(rng.integers(4, 9)), 6
+        labs = [["a", "b"], ["x", "y", "z"], ["p", "q"]][d % 3]
+        rows = [([round(float(v), 4) for v in rng.normal(d, 1, nt)], labs[int(rng.integers(0, len(labs)))]) for _ in range(ntr + nte)]
+        for i, l in enumerate(labs):            # every label occurs in the training part
+            rows[i] = (rows[i][0], l)
+        pdir = os.path.join(base, "dir%d" % d)
+        os.makedirs(os.path.join(pdir, "Prob"))
+        for part, sel in (("TRAIN", rows[:ntr]), ("TEST", rows[ntr:])):
+            with open(os.path.join(pdir, "Prob", "Prob_%s.ts" % part), "w") as fo:
+                fo.write("@problemName Prob\n@timeStamps false\n@missing false\n@univariate true\n@equalLength true\n@seriesLength %d\n@classLabel true %s\n@data\n" % (nt, " ".join(labs)))
+                fo.write("\n".join(",".join(repr(v) for v in vals) + ":" + lab for vals, lab in sel) + "\n")
+        problems.append((pdir, rows, ntr))
+    for d, (pdir, rows, ntr) in enumerate(problems):
+        ok, ds = ctx.call("on-disk:dataset-exception", UEADataset, path=pdir, name="Prob")
+        if not ok:
+            return
+        path = os.path.join(base, "res%d" % d) if case["store"] == "HDD" else None
+        if path:
+            os.makedirs(path)
+        res = HDDResults(path=path) if path else RAMResults()
+        orch = Orchestrator([TSCTask(target="target")], [ds], [TSCStrategy(PickClf(pick="majority"), name="maj")], _cv(cfg), res)
+        ok, _ = ctx.call("on-disk:run-exception", orch.fit_predict, overwrite_predictions=False, predict_on_train=cfg["pot"], save_fitted_strategies=False)
+        if not ok:
+            return
+        n = len(rows)
+        labels = np.array([l for _, l in rows])
+        frame = pd.DataFrame({"dim_0": [None] * n}, index=["train"] * ntr + ["test"] * (n - ntr))
+        for f, (tr, te) in enumerate(_folds(cfg, frame)):
+            vals, counts = np.unique(labels[tr], return_counts=True)
+            maj = vals[np.argmax(counts)]
+            for part, idx in (("test", te),) + ((("train", tr),) if cfg["pot"] else ()):
+                loaded = [p for p in res.load_predictions(f, part)]
+                ctx.check("exactly-once", len(loaded) == 1, "on-disk:records-missing-or-extra", "not exactly one record for the strategy / problem / fold / part", fold=f, part=part, got=len(loaded))
+                if len(loaded) != 1:
+                    continue
+                w = loaded[0]
+                good = [int(i) for i in w.index] == [int(i) for i in idx] and [str(v) for v in w.y_true] == [str(v) for v in labels[idx]] and all(str(v) == str(maj) for v in w.y_pred)
+                ctx.check("stored==predicted", good, "on-disk:record-not-that-of-the-directory-s-files",
+                          "the record of a run over an on-disk problem is not index / true labels / predictions of the files in THAT problem directory", directory=d, fold=f, part=part,
+                          got_index=[int(i) for i in w.index][:8], expected_index=[int(i) for i in idx][:8], got_true=[str(v) for v in w.y_true][:6], expected_true=[str(v) for v in labels[idx]][:6])
+    ctx.tag("on-disk-problems:same-name-in-%d-directories" % len(problems))
+    for m_ in ("fresh-clone", "load==stored", "idempotent", "overwrite.recomputes-all", "resume.untouched", "resume.no-needless-work", "resume.completes", "resume.final==uninterrupted"):
+        ctx.seen(m_, 0)
+    ctx.event(kind="on-disk", cfg=cfg, store=case["store"], directories=len(problems))
+    ctx.nontrivial = True
+
+
 def _run_case(case, ctx):
     cfg, k = case["cfg"], case["k"]
     base = os.path.join(os.environ.get("VMON_HOME", "/verif"), ".cache", "c19", "%d-%d" % (os.getpid(), case["id"]))
@@ -437,6 +501,8 @@ def _run_case(case, ctx):
     try:
         if case.get("kind") == "wrapped":
             return _wrapped(case, ctx, base)
+        if case.get("kind") == "on-disk":
+            return _on_disk(case, ctx, base)
         if case["store"] == "RAM":
             return _ram(case, ctx)
         ref_path = os.path.join(base, "ref")
